@@ -164,6 +164,8 @@ pub fn plan(prop: &str, tier: Tier) -> Option<Plan> {
             {
                 let mut v = vec![job(MatrixEngine::new("C11"), if q { 50_000 } else { 12_000_000 }, "all"), job(MatrixEngine::new("C11"), if q { 15_000 } else { 3_200_000 }, "nostd")];
                 v.extend(sized_jobs("C11", if q { 40 } else { 128 }, if q { 3000 } else { 480_000 }, both));
+                // raw round trips with a 32-bit usize (Miri for i686 as the execution vehicle; skipped when unavailable)
+                v.push(job(eng::c16::C11M32Engine, 0, "all"));
                 v.extend(thin_jobs("C11", if q { 40 } else { 128 }, if q { 2000 } else { 320_000 }, both));
                 v
             },
@@ -187,6 +189,8 @@ pub fn plan(prop: &str, tier: Tier) -> Option<Plan> {
                 job(eng::c16::C16Engine { fixed_grid: true }, 0, "nostd"),
                 job(eng::c16::C16Engine { fixed_grid: false }, if q { 320 } else { 16_000 }, "all"),
                 job(eng::c16::C16Engine { fixed_grid: false }, if q { 320 } else { 16_000 }, "nostd"),
+                // the guard under concurrency: several threads clone one allocation at the limit, simulated schedules
+                job(eng::c16::C16RaceEngine, if q { 1500 } else { 60_000 }, "all"),
                 // the same grid with a 32-bit usize (Miri for i686 as the execution vehicle; skipped when unavailable)
                 job(eng::c16::C16M32Engine { fixed_grid: true }, 0, "all"),
                 job(eng::c16::C16M32Engine { fixed_grid: false }, if q { 64 } else { 4_000 }, "all"),
